@@ -82,6 +82,12 @@ ASSUMPTIONS = [
     'measures (ValueError after pooling) - executed, outcome recorded, arguments must stay untouched',
     'never reached by construction: fitter.py:163 (fit_optimize normalising an exactly-zero BFGS result) '
     'and pooling.py:74-75 (second, shadowed rho-a branch)',
+    'ownership: after construction everything the caller still holds (the RDMs object passed, the stack it '
+    'was derived from, the raw array) is overwritten in place and every model law, the closed-form fits and '
+    'the dict round trip are judged again against the values at construction time; judged for RDMs-object '
+    'input (which the library copies); a plain vector array MAY be adopted by the constructor (container '
+    'policy, DESIGN.md) - all four classes do adopt 1-D / 2-D vector input, counted as an observation; '
+    'the reverse direction (using the model never changes the source) is judged for every input',
     'a 1-D sigma_k (variances) is accepted by compare() but documented for no fitter: fitters that '
     'accept it are judged, rejections are recorded in the evidence notes, not reported',
 ]
@@ -1348,7 +1354,7 @@ def _ownership_pass(ctx, cls, build, judged, basis, expected_desc, n, k, sigp, c
     klass = {'fixed': M.ModelFixed, 'select': M.ModelSelect, 'weighted': M.ModelWeighted,
              'interpolate': M.ModelInterpolate}[cls]
     sigo = sigp + ',source-overwritten'
-    oc = dict(case, law='ownership')
+    oc = dict(case, ownership='source overwritten after construction')
     with ctx.guard(sigo, oc):
         arg, sources = build()
         m = klass('mod', arg)
